@@ -81,6 +81,13 @@ fn guard_of(g: &Value, syms: &mut SymbolTable) -> datalog::Expression {
             Op::Value(Term::Integer(0)),
             Op::Binary(Binary::GreaterOrEqual),
         ],
+        "ov" => vec![
+            Op::Value(Term::Integer(i64::MAX)),
+            Op::Value(l),
+            Op::Binary(Binary::Add),
+            Op::Value(Term::Integer(0)),
+            Op::Binary(Binary::GreaterThan),
+        ],
         "false" => vec![Op::Value(Term::Bool(false))],
         o => panic!("guard {o}"),
     };
